@@ -247,7 +247,9 @@ def has_return(body):
     return False
 
 
-def reference(m, linter_view):
+def reference(m, try_skip=False, first_has=False, io_child=False):
+    """findings the property demands (all switches off = the semantic reading); each switch turns on one known deviation of the
+    linter: exceptions in try bodies are not seen / only the first has contract counts / io is covered by any io-family marker"""
     funcs = {f['name']: f for f in m['funcs']}
     res = {}
     for f in m['funcs']:
@@ -255,13 +257,14 @@ def reference(m, linter_view):
         rd = [d for d in f['decls'] if d[0] in ('raises', 'safe', 'pure')]
         if rd:
             declared = ['AssertionError'] + [e for d in rd if d[0] == 'raises' for e in d[1]]
-            rs = [e for e in escaping(f['body'], funcs, 0, linter_view) if not any(subclass(e, d) for d in declared)]
+            rs = [e for e in escaping(f['body'], funcs, 0, try_skip) if not any(subclass(e, d) for d in declared)]
         hd = [d for d in f['decls'] if d[0] in ('has', 'pure')]
         if hd:
-            if linter_view: M = hd[0][1] if hd[0][0] == 'has' else []                       # the linter looks at the first has / pure contract only
-            else: M = [x for d in hd if d[0] == 'has' for x in d[1]]                         # semantically every has contract allows its markers
+            if first_has: M = hd[0][1] if hd[0][0] == 'has' else []
+            else: M = [x for d in hd if d[0] == 'has' for x in d[1]]
             if not has_io(M) and not has_return(f['body']): ms.append('io')   # documented: a function without io must return something
-            ms += [e for e in effects(f['body'], funcs, 0, linter_view) if not covered_marker(e, M)]
+            cov = (lambda e: has_io(M) if (io_child and e == 'io') else covered_marker(e, M))
+            ms += [e for e in effects(f['body'], funcs, 0, False) if not cov(e)]
         res[f['name']] = {'raises': sorted(rs), 'markers': sorted(ms)}
     return res
 
@@ -269,33 +272,19 @@ def reference(m, linter_view):
 def monitor(m, r):
     out = []
     if 'error' in r: return [('the linter raised: ' + r['error'], None)]
-    sem = reference(m, False)
-    lv = reference(m, True)
+    sem = reference(m)
+    alts = {'raises': [('try_body_skipped', reference(m, try_skip=True))],
+            'markers': [('second_has_ignored', reference(m, first_has=True)), ('io_covered_by_child', reference(m, io_child=True)),
+                        ('second_has_ignored', reference(m, first_has=True, io_child=True))]}
     for f in m['funcs']:
         got = r['findings'].get(f['name'], {'raises': [], 'markers': []})
         for kind in ('raises', 'markers'):
-            g, s, l = set(got[kind]), set(sem[f['name']][kind]), set(lv[f['name']][kind])
+            g, s = set(got[kind]), set(sem[f['name']][kind])
             if g == s: continue
-            # classify: explained by the documented traversal (try bodies skipped) / the first-has rule?
-            tag = None
-            if g == l:
-                tag = 'try_body_skipped' if kind == 'raises' else None
-                if kind == 'markers':
-                    n_has = len([d for d in f['decls'] if d[0] == 'has'])
-                    tag = 'second_has_ignored' if n_has > 1 and set(reference_first(m, f)) != s else 'try_body_marker_skipped'
-            if kind == 'markers' and s - g == {'io'} and g - s == set() and tag is None: tag = 'io_covered_by_child'
-            out.append((f'{f["name"]}: {kind} findings {sorted(g)}; the reference analysis of the body gives {sorted(s)} (linter-view reference {sorted(l)}); decls {f["decls"]}', tag))
+            # is the difference exactly what one of the known deviations (or the two marker ones together) produces?
+            tag = next((t for t, ref in alts[kind] if g == set(ref[f['name']][kind])), None)
+            out.append((f'{f["name"]}: {kind} findings {sorted(g)}; the reference analysis of the body gives {sorted(s)}; decls {f["decls"]}', tag))
     return out
-
-
-def reference_first(m, f):
-    """semantic markers but judged against the first has contract only (to tell the two marker deviations apart)"""
-    funcs = {g['name']: g for g in m['funcs']}
-    hd = [d for d in f['decls'] if d[0] in ('has', 'pure')]
-    M = hd[0][1] if hd and hd[0][0] == 'has' else []
-    ms = []
-    if not has_io(M) and not has_return(f['body']): ms.append('io')
-    return sorted(ms + [e for e in effects(f['body'], funcs, 0, False) if not covered_marker(e, M)])
 
 
 def gen_cases(tier, seed):
